@@ -85,6 +85,8 @@ class PreprocessedDataHandler:
         Load preprocessed csv data as df
         """
         LOG.info("Loading preprocessed data: %s, %s, %s", self.election_id, self.office, self.geographic_unit_type)
+        # what came in, as opposed to what is derived from it for the estimands of this run (see save_data)
+        self.loaded_columns = list(preprocessed_data.columns)
         data = self.estimandizer.add_estimand_baselines(
             preprocessed_data,
             self.estimand_baselines,
@@ -97,4 +99,7 @@ class PreprocessedDataHandler:
     def save_data(self, preprocessed_data):
         if not Path(self.local_file_path).parent.exists():
             create_directory(str(Path(self.local_file_path).parent))
-        preprocessed_data.to_csv(self.local_file_path, index=False)
+        # the local file is read back as the preprocessed data of later runs: it holds the columns that were loaded, not the
+        # ones derived for this run's estimands (a later run with other estimands would take them for input)
+        columns = [col for col in self.loaded_columns if col in preprocessed_data.columns]
+        preprocessed_data[columns].to_csv(self.local_file_path, index=False)
